@@ -124,8 +124,11 @@ def build_model(ck: Checker) -> TransferModel:
                 m.trailing_add.append((x, c))
     for x in body:
         for c in calls_at(x):
-            if is_method_call(c, "append") and c.args and norm(c.args[0]) == dir_obj and isinstance(c.func.value, ast.Name):
-                m.success_list = c.func.value.id
+            if is_method_call(c, "append") and c.args and isinstance(c.func.value, ast.Name):
+                from ..an import value_alts
+
+                if any(norm(a_) == dir_obj for a_ in value_alts(g, x, c.args[0], depth=3)):
+                    m.success_list = c.func.value.id
     return m
 
 
